@@ -329,18 +329,29 @@ func (w *World) wrapMay(pred CallPred, depth int) func(ssa.Instruction) bool {
 
 // FieldStores lists every Store whose address is field typ.field (anywhere in the module).
 func (w *World) FieldStores(typ, field string) []*ssa.Store {
-	var out []*ssa.Store
-	for _, f := range w.AllFuncs {
-		EachInstr(f, func(in ssa.Instruction) {
-			if st, ok := in.(*ssa.Store); ok {
-				if fa, ok := st.Addr.(*ssa.FieldAddr); ok && fieldAddrIs(fa, typ, field) {
-					out = append(out, st)
+	if w.fieldStoreIdx == nil {
+		w.fieldStoreIdx = map[string][]*ssa.Store{}
+		for _, f := range w.AllFuncs {
+			EachInstr(f, func(in ssa.Instruction) {
+				if st, ok := in.(*ssa.Store); ok {
+					if fa, ok := st.Addr.(*ssa.FieldAddr); ok {
+						if t, fl, ok := FieldOf(fa); ok {
+							w.fieldStoreIdx[t+"."+fl] = append(w.fieldStoreIdx[t+"."+fl], st)
+							w.fieldStoreIdx["."+fl] = append(w.fieldStoreIdx["."+fl], st)
+							if _, fresh := fa.X.(*ssa.Alloc); !fresh {
+								w.fieldStoreIdx["shared:"+t+"."+fl] = append(w.fieldStoreIdx["shared:"+t+"."+fl], st)
+							}
+						}
+					}
 				}
-			}
-		})
+			})
+		}
 	}
-	return out
+	return w.fieldStoreIdx[typ+"."+field]
 }
+
+// currentWorld is the world being analysed (one at a time); used by purity tests in the path walker.
+var currentWorld *World
 
 // FieldAccess describes one access of a struct field.
 type FieldAccess struct {
